@@ -97,6 +97,9 @@ Closed(p, prog, reach) ==
   /\ \A a \in DInstr(reach) : prog[a].kind # "other"
   /\ \A s \in reach : prog[s[1]].kind \in {"jump", "cond", "call", "ind"} /\ s[2] # Exit => prog[s[2]].kind = "fall"   \* no branch in a delay slot
   /\ \A m \in AMan(p) : prog[m[1]].kind = "ind"
+  \* manual edges are declared for indirect jumps of the function: a head the entry cannot reach is outside the
+  \* intended use (and an unreachable cycle of unguarded edges makes ControlFlowGraph::merge fail - see design notes)
+  /\ (AMan(p) # {} => { m[1] : m \in AMan(p) } \subseteq DInstr(DReach(prog, AMan(p), 4, {4 * p.entry})))
 
 \* instruction classes falcon's MIPS lifter is known to support (the classes C02 judges; `not` / `neg` aliases -
 \* nor / sub with $zero - are refused by the lifter and excluded)
@@ -223,6 +226,7 @@ RunDetail(p, e, m) ==
       \* class of the shared delay-slot instance
       slotjump == /\ i >= 1 /\ MIsBranch(DecAt(p, i - 1).mn) /\ pw(la - 1) # 4 * (i - 1)
   IN [at |-> m.at, expected_pc |-> m.pc, last_word |-> i, last_mn |-> IF i >= 0 THEN DecAt(p, i).mn ELSE "",
+      last_is_slot |-> (i >= 1 /\ MIsBranch(DecAt(p, i - 1).mn)),
       entered_slot_by_jump |-> slotjump,
       regs |-> [k \in 1..Len(bad) |-> [n |-> bad[k].n, v |-> bad[k].ev]]]
 
